@@ -11,7 +11,7 @@ CHECKS = {
    text="The design (chain of dictionaries) is model-checked exhaustively in a bounded configuration with the clauses of the statement as invariants/action properties; "
         "every (state, call) transition of that model is replayed through the real public API with all results and the full observable projection compared, and independently "
         "generated random histories recorded from the real code are validated against the same specification by TLC. Level: model checking bound to the code by conformance in both directions.",
-   note="Trusted: TLC/SANY/Json module, Go toolchain, the harness' token<->value mapping. Bounds: <=3 (quick) / 4 (thorough) scopes and 4 names in the exhaustive part; random traces use 8 scopes, 8 names, length 60-80. Error message texts and String() output are not compared."),
+   note="Trusted: TLC/SANY/Json module, Go toolchain, the harness' token<->value mapping. Bounds: <=3 (quick) / 4 (thorough) scopes and 4 names, depth 3 / 4, in the broad exhaustive part and one value name + one type name at depth 4 / 5 in the deep one (the model carries the lazily-allocated-table bits so that define-delete-copy histories are distinct states); random traces use 8 scopes, 8 names, length 60-80. Error message texts and String() output are not compared."),
  "C13": dict(level="model_checking", design="5 (C13), 3.6, 4.2",
    technique="TLC model checking of spec/AnkoEnvConc.tla (lock-granular, linearizability vs AnkoEnv) + exhaustive schedule DFS of the real env package under a gate scheduler (mutex swapped by go build -overlay) with TLC validating every observed outcome + race detector runs",
    text="All interleavings at lock-acquisition granularity of 2-3 goroutines are explored twice: in the TLA+ model (TLC, with linearizability against the sequential specification, lock discipline and deadlock freedom) "
@@ -36,7 +36,7 @@ CHECKS = {
    text="Defers (count, LIFO order, argument timing, result preservation, error precedence) and error propagation to the nearest try are defined by the reference semantics and compared on every program of the families on the real interpreter.",
    note=CORE_NOTE),
  "C14": dict(level="model_checking", design="5 (C14)",
-   technique="solo outcome from TLC/AnkoSem; one parsed tree run sequentially and concurrently on fresh environments with a structural tree digest before/after, run k = run 1 = solo, package-table digest, race detector",
+   technique="solo outcome from TLC/AnkoSem; one parsed tree run sequentially and concurrently on fresh environments with a structural tree digest before/after, run k = run 1 = solo, one tree in environments that bind a type name differently (each variant = its alone result), package-table digest, race detector",
    text="Non-interference is checked on every program of the language-core corpora and a raw-source corpus: the tree digest (including the run-time slots inside call and literal nodes) never changes, every repeated/concurrent run equals the first and the specification's solo outcome, import copies leave the process-wide tables unchanged, and the race detector stays silent.",
    note=CORE_NOTE + " The race detector observes only the interleavings that occur."),
  "C05": dict(level="model_checking", design="5 (C05), 3.1, 3.2",
@@ -69,20 +69,20 @@ CHECKS = {
    note="Trusted: Go channel semantics as documented. Real schedules are sampled, not enumerated. Bounds: 0-2 (thorough 3) stages, capacity 0-2 (3), up to 3 (4) items, 3 consumer modes, 3 element types; sequences up to length 5 (6)."),
  "C02": dict(level="model_checking", design="5 (C02), 3.5",
    technique="TLC model checking (safety + liveness under weak fairness) of AnkoCancel.tla with wrong-design negative controls + cancellation delivered inside the verif hooks at every gate of every core x wrapper program on the real VM, observations validated by TLC",
-   text="The abstract interpreter thread (polls at statement entry, loop heads and channel waits; interrupt wrapped at function boundaries; try, ?? and deferred calls as potential swallowers) is model-checked for every stack of up to three wrappers with cancellation at any moment: no effect after the cancellation is observed, the result is the interrupt, and cancelled leads to finished. On the real interpreter the context is cancelled at the k-th gate for every k (exact instants at poll granularity) for 16 spinning/blocking cores under 21 wrappers and sampled pairs, and once asynchronously; each run must return within 5 s with 'execution interrupted' and without later script effects.",
+   text="The abstract interpreter thread (polls at statement entry, loop heads and channel waits; interrupt wrapped at function boundaries; try, ?? and deferred calls as potential swallowers) is model-checked for every stack of up to three wrappers with cancellation at any moment: no effect after the cancellation is observed, the result is the interrupt, and cancelled leads to finished. On the real interpreter the context is cancelled at the k-th gate for every k (exact instants at poll granularity) for 18 spinning/blocking cores under 26 wrappers (incl. functions defined by an earlier run) and sampled pairs, and once asynchronously; 16 calls under one context contending for a host channel must all return; each run must return within 5 s with 'execution interrupted' and without later script effects.",
    note="Trusted: the hooks fire at the interpreter's polling sites (a removed hook shows as fewer instants, not as an alarm); wall-clock bound 5 s vs. measured latencies of microseconds to ~30 ms. Time inside one host Go call (including callbacks it makes) is outside the property."),
  "C20": dict(level="model_checking", design="5 (C20), 3.2",
    technique="TLC enumerates operation template x operand value x provenance chain and builds each script (AnkoProvenance.tla); outcomes observed on the real VM are validated by TLC against the law Outcome(T[c(v)]) = Outcome(T[v])",
    text="Every provenance hop (slice element, map entry, script call, Go call returning interface{}, parentheses, ternary, ??) is specified as the identity on values; the product of ~130 operation templates (every operator position, index/slice/len/in, call/spread/member/deref, loops, switch, conditions, make sizes, channel operations, delete, throw, assignment targets, defer/go) x 16 operand values x all chains up to length 2 (3) is enumerated by TLC and each instantiated script must yield the same canonical value, dynamic type and error-or-success as with the bare variable.",
    note="Trusted: the canonical printing of outcomes (pointers followed, addresses masked, maps sorted); the bare-variable outcome is the reference, so an operation that is wrong for every provenance alike is not this property's business. One excluded combination (element assignment on a string through a non-assignable operand)."),
  "C10": dict(level="model_checking", design="5 (C10), 3.8",
-   technique="TLC trace validation (Trace_AnkoContainers.tla) of recorded histories of container statements against AnkoContainers.tla (Go slice-header/backing-array, map, typed-store and struct-field rules; capacity growth nondeterministic)",
-   text="The specification keeps the heap of backing arrays and slice headers explicitly, so aliasing, writes through shared storage, appends within and beyond capacity and 3-index capacity limits are part of the state; each recorded statement's result and the whole projection after it (contents, len, cap, storage sharing measured through data pointers, map contents, fields) must be a step the specification allows, with errors leaving everything unchanged.",
-   note="Trusted: TLC; the harness' projection through reflection (data pointers for sharing). Bounds: seeded random histories (400x30 quick, 6000x40 thorough) over 7 variables, ~26 operation kinds; points the statement leaves open end the judged part of a history. Strings are covered only through C20/C05 templates."),
+   technique="TLC exhaustive model checking of the bounded machine MC_AnkoContainers.tla over AnkoContainers.tla (design properties as invariants / action properties, negative controls) + transition-cover replay into the real interpreter + TLC trace validation (Trace_AnkoContainers.tla) of recorded random histories",
+   text="The specification keeps the heap of backing arrays and slice headers explicitly, so aliasing, writes through shared storage, appends within and beyond capacity and 3-index capacity limits are part of the state; each recorded statement's result and the whole projection after it (contents, len, cap, storage sharing measured through data pointers, map contents, fields) must be a step the specification allows, with errors leaving everything unchanged. The same Step function drives a bounded machine (per family: slices, maps, strings, typed containers and struct fields incl. a map-typed field and values read into variables) that TLC explores exhaustively up to a depth bound with the clauses of the statement as properties (WindowOK, TypedHolds, ErrUnchanged, ReadsPure, StoreExact, SliceShares, AliasIsReference, GrowthLocal, StringsAreValues, MapAliasing, BoundValuesStay); one history per transition is replayed on the interpreter and judged by the trace specification.",
+   note="Trusted: TLC; the harness' projection through reflection (data pointers for sharing). Bounds: depth 4-5 (quick) / 6 (thorough) per family over alphabets of 40-70 statements; seeded random histories (400x30 quick, 6000x40 thorough) over 11 variables, ~35 operation kinds; points the statement leaves open end the judged part of a history; capacity growth is taken from the log."),
  "C11": dict(level="model_checking", design="5 (C11), 3.8",
-   technique="TLC enumerates the conversion table and call-shape table of AnkoCall.tla over signatures x argument tuples x call shapes (tables checked total); replay against host functions built with reflect.MakeFunc comparing the arguments actually received; scenario checks for round trips, members, methods, results and callbacks",
+   technique="TLC enumerates the conversion table and call-shape table of AnkoCall.tla over signatures x argument tuples x call shapes (tables checked total); replay against host functions built with reflect.MakeFunc comparing the arguments actually received; the Results and MethodReachable tables enumerated and replayed likewise; scenario checks for round trips, members and callbacks",
    text="Which argument feeds which parameter, whether the call is delivered or rejected, and how each value is converted (identity, Go conversion, zero value, element-wise, callback adapter, error) are decided by the TLA+ tables for every combination of the bounded pools and compared with what a reflect-built host function of that very signature receives; identity round trips, field access through values and pointers, value/pointer-receiver methods, variadic and spread delivery, multiple results and callback conversion/error surfacing are checked on concrete host values.",
-   note="Trusted: reflect.Convert as Go's own conversion; TLC. Bounds: 15 parameter types, 15 argument kinds, one- and two-parameter and variadic signatures, ~8.5k cases, 50 scenarios."),
+   note="Trusted: reflect.Convert as Go's own conversion; TLC. Bounds: 15 parameter types, 15 argument kinds, one- and two-parameter and variadic signatures, ~8.5k cases; results: 0-3 results over 12 kinds (typed nils, errors, interfaces); methods: 8 receiver shapes x value/pointer receiver x 0-2 arguments; 50 scenarios."),
  "C19": dict(level="model_checking", design="5 (C19), 3.9",
    technique="TLC computes range progressions with the Int64 limb arithmetic and the toInt/toFloat dispatch (AnkoBuiltins.tla) for enumerated argument tuples; replay in a memory-limited watchdogged worker; native-Go oracles for the remaining builtins; TLC validation of the reflected package tables against EntryOK",
    text="range is specified as the int64 progression strictly before stop and computed bit-exactly in TLA+ for all small triples and for extreme triples at the int64 edges (where the implementation must stop instead of wrapping); conversions are dispatched in TLA+ to exact values or named Go primitives. The remaining builtins are compared with the same computation done natively in Go over a value universe, including misuse; all 595 package-table entries are reflected (runtime symbol / type identity) and validated against the rule that an entry is the Go function or type it is listed under.",
